@@ -142,6 +142,9 @@ def run(run):
         for layout in ("1d", "2d", "blocks"):
             cnt = (10 if quick else 60)
             vecs = [[rng.choice([-1, 1]) * rng.randint(1, 40) for _ in range(n)] for _ in range(cnt)]
+            # quantised inputs: few magnitude levels, so the least reliable magnitude is usually shared by several positions (ties)
+            for j in range(cnt // 2):
+                vecs[2 * j] = [rng.choice([-1, 1]) * rng.choice([1, 1, 2, 5]) for _ in range(n)]
             try:
                 if layout == "1d":
                     outs = [bits(dec(torch.tensor(v, dtype=torch.float32))) for v in vecs]
@@ -230,7 +233,7 @@ def run(run):
     mism = tv.validate_sharded(run, "Trace_Soft", evs, (lambda e: e["ev"] == "Code"), name="TV C10", max_events=3000, jobs=10,
                                 cost=(lambda e: (2 ** max(0, len(e["y"]) - 5) if e["ev"] == "Wagner" else (4 if e["ev"] in ("BpExact", "MinSum") else 1))))
     pr = getattr(run, "last_prints", [])
-    run.extra["wagner_inputs_excluded_as_ties"] = len([p for p in pr if isinstance(p, list) and p and p[0] == "TIE"])
+    run.extra["wagner_inputs_with_tied_ml_codewords_judged_too"] = len([p for p in pr if isinstance(p, list) and p and p[0] == "TIE"])
     run.extra["min_sum_inputs_in_sub_offset_corner_judged_too"] = len([p for p in pr if isinstance(p, list) and p and p[0] == "SUBOFFSET"])
     seen = set()
     for (t, line, clause) in mism:
